@@ -141,6 +141,19 @@ class AProg(k2.Prog):
             return "{ %s(%d, &[%s]); %s }" % ("capp" if op.cap_panics else "cap", op.cap_id + self.base, vis, call)
         return call
 
+    def world_gated(self):
+        """the world description with the gate of every gated operator (`mode:cb:outcome:gate`)"""
+        w = self.world()
+        gates = {}
+        for br in self.branches:
+            for op in br["ops"]:
+                if getattr(op, "agate", 0) and op.cb:
+                    gates[op.cb] = op.agate
+        def fix(m):
+            cb = int(m.group(2))
+            return m.group(0) + (":%d" % gates[cb] if cb in gates else "")
+        return re.sub(r"(init|map|andThen|then|inspect|orElse|mapErr):(\d+):(?:ok|fail|panic)=-?\d+", fix, w)
+
     def handler_src(self):
         h = self.handler
         n = len(self.branches)
@@ -298,6 +311,37 @@ def judge(p, rust_line, spec_line):
     return problems[:4]
 
 
+def poll_diff(p, rust_line, model_line):
+    """Events per poll: the real future on the deterministic executor vs the poll-level model.  Returns a description of the
+    first difference or None."""
+    f = rust_line.split("\t")
+    if f[0] in ("BLOCKED", "MISSING"):
+        return None
+    real_polls, cur = [], None
+    for (t, tn, tid) in k2.parse_rust_events(f[1] if len(f) > 1 else "", p.base):
+        if t == "poll":
+            cur = []
+            real_polls.append(cur)
+        elif cur is not None and (t.startswith(("cb:", "cap:", "hc:")) or t == "hd"):
+            cur.append(t)
+    mf = model_line.split("\t")
+    m_res = mf[0]
+    m_polls = [k2.lean_flat("x\t" + seg, p)[1] for seg in (mf[1].split(" | ") if len(mf) > 1 else [])]
+    i_res = k2.normalize_panic(f[0], p.base)
+    if f[0] == "STUCK":
+        return None if m_res == "PENDING" else "the real future was still pending after the schedule, the model says %s" % m_res
+    if m_res == "PENDING":
+        return "the model is still pending after the schedule, the real future returned %s" % i_res
+    if k2.lean_flat(m_res + "\t", p)[0] != i_res:
+        return "result: real %r, model %r" % (i_res, m_res)
+    if len(real_polls) != len(m_polls):
+        return "number of polls until completion: real %d, model %d" % (len(real_polls), len(m_polls))
+    for i, (a, b) in enumerate(zip(real_polls, m_polls)):
+        if a != b:
+            return "poll %d: real %r, model %r" % (i, a, b)
+    return None
+
+
 def body(ctx, kinds=("a1t0s0", "a1t1s0", "a1t0s1", "a1t1s1"), n=None, profiles=None, **kw):
     n = (70 if ctx.quick() else 700) if n is None else n
     params = dict(max_depth=3, max_branches=3, fail_rate=(1, 6), handler_rate=(1, 3), block_rate=(1, 5), name_rate=(1, 4))
@@ -322,6 +366,23 @@ def body(ctx, kinds=("a1t0s0", "a1t1s0", "a1t0s1", "a1t1s1"), n=None, profiles=N
     lines = ["SPEC\t%s\t%s\t%s\t%s" % (p.pid, sync_kind(p.kind), r.structure, p.world()) for p, r in zip(progs, reals)]
     outs = k1.run_driver(lines)
     spec = {p.pid: (o.split("\t", 1)[1] if "\t" in o else o) for p, o in zip(progs, outs)}
+    # the semantics of the model-generated async code (canonical schedule) must be that reference: `sync_refines` on concrete
+    # programs, for the async kinds it covers (the non-try ones)
+    cov = [(p, r) for p, r in zip(progs, reals) if not p.is_try()]
+    runs = k1.run_driver(["RUN\t%s\t%s\t%s\t%s" % (p.pid, p.kind, r.structure, p.world()) for p, r in cov]) if cov else []
+    for (p, r), o in zip(cov, runs):
+        line = o.split("\t", 1)[1] if "\t" in o else o
+        if line != spec[p.pid]:
+            ctx.broken.append(("refinement on a concrete async program (Sem(gen p) under the canonical schedule vs reference)",
+                               {"program": "%s! { %s }" % (p.name, p.macro_input()), "model_code_semantics": line[:600], "reference": spec[p.pid][:600]}))
+            break
+    ctx.out.coverage["async_model_runs_compared"] = ctx.out.coverage.get("async_model_runs_compared", 0) + len(cov)
+    # the poll-level model (Async.lean / AsyncSpec.lean): its predicted events per poll under this gate schedule, for the
+    # kinds that run on the deterministic executor
+    det = [(p, r) for p, r in zip(progs, reals) if not p.is_spawn()]
+    apoll = k1.run_driver(["APOLL\t%s\t%s\t%s\t%s\t%s" % (p.pid, p.kind, r.structure, p.world_gated(),
+                           "|".join(",".join(str(g) for g in b) for b in p.schedule) if p.schedule else "-") for p, r in det]) if det else []
+    predicted = {p.pid: (o.split("\t", 1)[1] if "\t" in o else o) for (p, r), o in zip(det, apoll)}
     src = (k2.PRELUDE_SYNC + PRELUDE_ASYNC + "".join(p.rust_fn() for p in progs) +
            MAIN_ASYNC % ", ".join('("%s", %s as fn() -> String)' % (p.pid, p.pid) for p in progs))
     ok, out, log = k2.build_and_run("k2async", src, with_async=True)
@@ -345,6 +406,17 @@ def body(ctx, kinds=("a1t0s0", "a1t1s0", "a1t0s1", "a1t1s1"), n=None, profiles=N
     for p in progs:
         rl = got.get(p.pid, "MISSING\t")
         problems = judge(p, rl, spec[p.pid])
+        if p.pid in predicted:
+            d = poll_diff(p, rl, predicted[p.pid])
+            ctx.out.coverage["poll_level_compared"] = ctx.out.coverage.get("poll_level_compared", 0) + 1
+            if d and not problems:
+                # the implementation satisfies the property-level oracle but not the poll-level model: the model (or the
+                # assumption about join!/await it encodes) does not describe this execution
+                ctx.broken.append(("poll-level model vs the real future on the deterministic executor",
+                                   {"program": "%s! { %s }" % (p.name, p.macro_input()), "gate_schedule": p.schedule, "difference": d,
+                                    "observed": rl[:800], "model": predicted[p.pid][:800]}))
+            elif d:
+                problems.append("poll-level: " + d)
         ctx.dist["k2async:" + p.name] += 1
         ctx.shapes.add(p.kind + re.sub(r"\d+", "0", p.macro_input()))
         if problems:
